@@ -792,12 +792,28 @@ class Sym(numbers.Number):
         return self.__ceil__()
 
     def rint(self):
+        """round half to even.  Encoded with a fresh integer r: |x - r| <= 1/2 and, at an exact tie, r even
+        (r = 2k).  Equivalent to the ite/mod form but without mod terms, which z3 handles poorly next to reals."""
         if self.isint:
             return self
-        f = self.__floor__().z
-        r = self.z - z3.ToReal(f)
+        v = _numval(z3.simplify(self.z))
+        if v is not None:
+            fl = math.floor(v)
+            d = v - fl
+            r = fl if d < Fraction(1, 2) else (fl + 1 if d > Fraction(1, 2) else (fl if fl % 2 == 0 else fl + 1))
+            return Sym(z3.IntVal(r))
+        key = ('rint', self.z.get_id())
+        if key in ENG.uf_memo:
+            return ENG.uf_memo[key][1]
+        r = ENG.fresh_int('rint')
+        k = ENG.fresh_int('rintk')
         half = z3.RealVal('1/2')
-        return Sym(z3.If(r < half, f, z3.If(r > half, f + 1, z3.If(f % 2 == 0, f, f + 1))))
+        rr = z3.ToReal(r)
+        ENG.assumes.append(z3.And(self.z - rr <= half, rr - self.z <= half,
+                                  z3.Implies(z3.Or(self.z - rr == half, rr - self.z == half), r == 2 * k)))
+        out = Sym(r)
+        ENG.uf_memo[key] = (self, out)
+        return out
 
     def __round__(self, n=None):
         if n not in (None, 0):
